@@ -8,12 +8,12 @@ GOENV = {
     "GOFLAGS": "-mod=mod", "GOPROXY": "off", "GOSUMDB": "off", "GOTOOLCHAIN": "local",
 }
 
-def leg(test, module="rt", quick=(1000, 1), thorough=(10000, 16), race=False, timeout_s=600, env=None, fixed=False):
-    return dict(test=test, module=module, quick=quick, thorough=thorough, race=race,
+def leg(test, module="rt", quick=(1000, 1), thorough=(10000, 16), race=False, timeout_s=600, env=None, fixed=False, prefixes=None):
+    return dict(prefixes=prefixes or [], test=test, module=module, quick=quick, thorough=thorough, race=race,
                 timeout_s=timeout_s, env=env or {}, fixed=fixed)
 
 HOOK_COMMITS = ["dd392ad"]
-FIX_COMMITS = ["e449346", "ba22cb7", "3039ef0"]
+FIX_COMMITS = ["e449346", "ba22cb7", "3039ef0", "273eefb", "cca5970"]
 
 ALL_PROPS = ["C%02d" % i for i in range(1, 21)]
 
@@ -55,6 +55,50 @@ CHECKS = {
         level_note="Trusted: rapid, the in-process NATS/STOMP brokers, the hand-written fixtures mirroring generated code (h/rt/fixtures.go).",
         assumptions=["a stalled stream peer is legitimate waiting, not a hang", "memory exhaustion is observed, not judged"],
         design_ref="DESIGN.md §2 C05",
+    ),
+    "C01": dict(
+        title="Under multiplexing every RPC gets exactly its own response",
+        legs=[leg("TestC01Mux", quick=(120, 4), thorough=(2000, 16), timeout_s=3000, prefixes=["c01."])],
+        level="exploration",
+        technique="model-based property testing (rapid): generated caller/responder scripts interpreted against the real transport with owned schedule points, reference model of op-id states",
+        rule=("Scripts of up to 35 steps over one shared client transport (adapter over a scripted byte stream, or the NATS transport against an in-process broker): "
+              "start(caller, long|short timeout), deliver(response for an in-flight / completed / timed-out / never-issued / 0 / 2^64-1 op id, x1..2 copies, any order), await, sleep; "
+              "in controlled mode also hold/release of the reader before its channel send and of a caller before unregister (verif yield hooks). "
+              "Non-trivial: >=2 concurrent requests and at least one of out-of-order delivery, duplicate, late response, never-issued op id. Distinct: sha256 of the script."),
+        level_text=("Exploration of caller/reader/timeout interleavings and response arrival sequences against a reference model: a request may complete only with a frame whose "
+                    "_opid header and payload nonce are its own; a long-timeout caller whose response was delivered must complete; nobody completes without a delivery; "
+                    "foreign deliveries change no outcome; the registry is empty at the end; a final probe request must be answered."),
+        level_note="Trusted: the harness' model and scripted transport; goroutine interleavings beyond the two owned yield points are sampled, not enumerated.",
+        assumptions=["distinct FContexts per request (the stated domain)", "NATS preserves per-subject order"],
+        design_ref="DESIGN.md §2 C01",
+    ),
+    "C06": dict(
+        title="The inbound path never stalls: no head-of-line blocking",
+        legs=[leg("TestC06Stall", quick=(120, 4), thorough=(2000, 16), timeout_s=3000, prefixes=["c06."])],
+        level="exploration",
+        technique="model-based property testing (rapid): adversarial inbound frame prefixes (duplicates x1..5, unsolicited, late) followed by a probe request; outcome-based oracle",
+        rule=("Same script language as C01 with 1..5 copies per delivery; after the script a probe request is issued and its response fed last. "
+              "Non-trivial: >=2 concurrent requests and a duplicate / late / never-issued delivery. Distinct: sha256 of the script."),
+        level_text=("Exploration: whatever was received before, the probe (3 s budget, healthy latency well under 1 ms) must complete with its own frame, every other "
+                    "delivered caller must complete, in free-running and in controlled schedules (caller parked between receipt and unregister, reader parked before send)."),
+        level_note="Trusted: harness; a stall that needs more than 3 s to resolve would be misjudged (none is legitimate here: everything is in memory).",
+        assumptions=["healthy in-process broker"],
+        design_ref="DESIGN.md §2 C06",
+    ),
+    "C15": dict(
+        title="Transport failure is detected, reported once and recoverable, repeatedly",
+        legs=[leg("TestC15History", quick=(250, 4), thorough=(4000, 16), timeout_s=3000, prefixes=["c15."])],
+        level="fault_enumeration",
+        technique="model-based property testing (rapid) of open/fail/reopen/close histories with fault injection on a scripted byte stream + exhaustive enumeration of cut offsets; reference model of the close state machine and monitor policy",
+        rule=("Histories of up to 23 steps over the adapter transport on a scripted stream with a recording BaseFTransportMonitor (MaxReopenAttempts 0..4, waits 1..6 ms): "
+              "Open, Close, IsOpen, Request, fail(EOF | I/O error | unrecoverable frame | write failure; between frames or inside a frame), failNextOpens(n), sleep. "
+              "Non-trivial: >=2 failures, or a failure and a Close. Distinct: sha256 of the history. The cut leg enumerates every byte offset of multi-frame streams x {EOF, I/O error}."),
+        level_text=("Fault enumeration + exploration: every call runs under a 5 s deadlock watchdog; after each failure the Closed() channel obtained while open must yield exactly one cause "
+                    "(nil only for Close() and peer EOF, which the project defines as clean) and then close; the monitor must be notified, make at most MaxReopenAttempts attempts with waits <= MaxWait, "
+                    "and IsOpen/ALREADY_OPEN/NOT_OPEN must agree with the reference model after every step; the transport must be usable at the end."),
+        level_note="Trusted: scriptT's rendering of socket behaviour (a failed write also fails the read side; Read returns after Close). Monitor waits are scaled to milliseconds.",
+        assumptions=["peer EOF is a clean close (read-loop comment and Java runtime's isCleanClose)", "monitor notifications are only required while the monitor runner is active (it terminates after a clean close or after giving up)"],
+        design_ref="DESIGN.md §2 C15",
     ),
 }
 
